@@ -532,8 +532,8 @@ Proof.
     destruct rn as [m| | | |]; try exact G0.
     set (nk := render d ++ 0 :: r).
     destruct (cache_get (node_cache st0) nk) eqn:Ec; [exact G0|].
-    destruct (try_cands_good (cands_node fs d r) st0 (proj1 G0)) as [G R].
-    destruct (try_cands fs rq st0 (cands_node fs d r)) as [st1 x]. cbn [fst snd] in *.
+    destruct (try_cands_good (cands_node fs (parse (render d)) r) st0 (proj1 G0)) as [G R].
+    destruct (try_cands fs rq st0 (cands_node fs (parse (render d)) r)) as [st1 x]. cbn [fst snd] in *.
     assert (G01 : good st st1) by (eapply good_trans; eassumption).
     destruct x as [m| | | |]; try exact G01. cbn [fst].
     eapply good_trans; [exact G01|]. apply alias_node_good; [exact (proj1 G)|exact R].
